@@ -136,6 +136,26 @@ Definition rewrite_input (a : string) (labels : list string) (e : expr) : expr :
 Definition value_impl (n : net) (st pa : vid -> Qc) : vid -> option Qc := value_with n st pa (input_impl n pa) (fuel_of n).
 Definition deriv_impl (n : net) (st pa : vid -> Qc) : vid -> option Qc := deriv_with n st pa (input_impl n pa) (fuel_of n).
 
+(* the same mechanism with the D3 switch as a PARAMETER (fx = false: dict keyed by the source node only, the code before fix
+   D59; fx = true: keyed by source node and source variable).  `deriv_impl` above is `deriv_impl_gen fixed_D3` by conversion
+   (EdgesProofs.deriv_impl_gen_is_model), so statements about `deriv_impl_gen false` are statements about the former mechanism,
+   evaluated by Coq, not conditional records. *)
+Definition merge_key_gen (fx : bool) (g : gedge) : vid := if fx then gsrc g else (vnode (gsrc g), "", "").
+Definition merge_groups_gen (fx : bool) (ges : list gedge) : list (vid * list gedge) := group_by vid_eqb (merge_key_gen fx) ges.
+Definition collect_from_edges_gen (fx : bool) (ges : list gedge) : list merged := map mk_merged (merge_groups_gen fx ges).
+Definition merged_into_gen (fx : bool) (n : net) (v : vid) : list merged :=
+  collect_from_edges_gen fx (group_edges (in_edges n v)).
+Definition input_impl_gen (fx : bool) (n : net) (pa : vid -> Qc) : input_rule := fun sv v prods =>
+  let ms := merged_into_gen fx n v in
+  let sources := app (map sv prods) (match ms with [] => [] | _ => [edge_value sv ms (pa v)] end) in
+  match sources with
+  | [] => Some (pa v)
+  | [x] => x
+  | _ => osum sources
+  end.
+Definition deriv_impl_gen (fx : bool) (n : net) (st pa : vid -> Qc) : vid -> option Qc :=
+  deriv_with n st pa (input_impl_gen fx n pa) (fuel_of n).
+
 (* ---------------------------------------------------------------------------------------------- 6 layout *)
 Fixpoint layout_from {A} (idx : nat) (vars : list (A * nat)) : list (A * (nat * nat)) :=
   match vars with
